@@ -3,6 +3,7 @@ Model: coq/theories/Http/Caps.v (extracted, driven by coq/ocaml/c16_driver.ml) a
 ProxiedRegion / Session / SessionManager / MITMProxyEventManager objects."""
 import contextlib
 import copy
+import functools
 import logging
 import hashlib
 import json
@@ -34,6 +35,10 @@ TRUSTED = [
     "(C16_seed_request_dup_refuted) - viewers send each name once, the oracle does not generate or judge duplicate names; "
     "proxy_cap_idempotent is proved for any interleaving that does not grant the same name in the same region in between "
     "(a simulator grant shadowing a proxy-only name makes the next registration mint a new URL: documented boundary, not checked as a violation)",
+    "harness code, not extracted: the driver's tree walk (T lines: applies the extracted step to the parent's model state, in "
+    "alphabet order, and prints the extracted cap_url / md_getall of the watched name) and every-step mode (E lines); the "
+    "family's snapshot/restore of ProxiedRegion.caps/_caps_url_lookup between siblings assumes these two containers are the only "
+    "state update_caps/register_cap/resolve_cap touch (the random suites run every sequence on fresh objects)",
     "C16_wrapper_urls_distinct assumes the stated oracle hypotheses (sha256(seed id)[:16] + lower-cased cap name give distinct "
     "hosts for distinct (name, seed id); urlsplit recovers the netloc urlunsplit was given); C16_temporary_once and "
     "C16_resolve_sound assume `unambiguous` (prefix-related grants agree), which excludes the recorded prefix finding",
@@ -41,6 +46,17 @@ TRUSTED = [
 
 WRAPPABLE = ("GetMesh2", "GetMesh", "GetTexture", "ViewerAsset")
 TY_NAMES = {"N": "NORMAL", "T": "TEMPORARY", "W": "WRAPPER", "P": "PROXY_ONLY"}
+TY_SHORT = {v: k for k, v in TY_NAMES.items()}
+
+
+class _TyLetter(dict):
+    """CapType member -> one-letter code (Enum.name is slow; this is on the hot path of the sweeps)"""
+    def __missing__(self, t):
+        self[t] = TY_SHORT[t.name]
+        return self[t]
+
+
+TYL = _TyLetter()
 UPLOAD_CREATING = ("NewFileAgentInventory", "UpdateGestureAgentInventory", "UpdateGestureTaskInventory",
                    "UpdateNotecardAgentInventory", "UpdateNotecardTaskInventory", "UpdateScriptAgent", "UpdateScriptTask",
                    "UpdateSettingsAgentInventory", "UpdateSettingsTaskInventory", "UploadBakedTexture",
@@ -50,6 +66,7 @@ PREFIX_CLASS = "prefix-related-urls-first-inserted-wins"
 
 # --------------------------------------------------------------------------- encoding
 
+@functools.lru_cache(maxsize=8192)
 def hx(s):
     return "x" + s.encode("utf8").hex()
 
@@ -301,8 +318,8 @@ class World:
             for r in s.regions:
                 regs.append("R %s %s C %s L %s" % (
                     opt(r.circuit_addr[1] if r.circuit_addr else None), opt(r.handle),
-                    " ".join("%s:%s:%s" % (hx(n), "P" if t.name == "PROXY_ONLY" else t.name[0], hx(u)) for n, (t, u) in r.caps.items()),
-                    " ".join("%s:%s:%s" % (hx(u), "P" if t.name == "PROXY_ONLY" else t.name[0], hx(n)) for u, (t, n) in r._caps_url_lookup.items())))
+                    " ".join([hx(n) + ":" + TYL[t] + ":" + hx(u) for n, (t, u) in r.caps.items()]),
+                    " ".join([hx(u) + ":" + TYL[t] + ":" + hx(n) for u, (t, n) in r._caps_url_lookup.items()])))
             parts.append("S %d %s" % (s.id.int, " ".join(regs)))
         return " ; ".join(parts) + " U %d" % self.uuid_n
 
@@ -391,6 +408,16 @@ class Spec:
             return ("ambiguous", None, others)
         return ("cd", best.pop(), others)
 
+    def clone(self):
+        """cheap copy for the depth-first sweeps (entries are immutable tuples)"""
+        c = Spec()
+        c.sessions = [{"globals": s["globals"],
+                       "regions": [{"addr": r["addr"], "hist": {n: list(l) for n, l in r["hist"].items()}} for r in s["regions"]]}
+                      for s in self.sessions]
+        c.flows = list(self.flows)
+        c.seen_urls = set(self.seen_urls)
+        return c
+
     def consume(self, got_cd):
         """the implementation reported resolving a TEMPORARY cap: drop that grant from the history"""
         for si, ri, n, ty, u in list(self.sites()):
@@ -398,6 +425,16 @@ class Spec:
                 self.hist(si, ri)[n].remove((ty, u))
                 return True
         return False
+
+
+def observable(l):
+    """the part of a name's grant list (most recent first) that lookups by name can ever yield: up to the first non-TEMPORARY grant"""
+    out = []
+    for ty, u in l:
+        out.append([ty, u])
+        if ty != "T":
+            break
+    return out
 
 
 def check_ops(world, ops, collect=None, stop_at_first=True):
@@ -434,6 +471,21 @@ def spec_by_name(world, spec, i):
                 if got != want:
                     v.append({"clause": "latest_by_name", "class": "by-name-lookup-not-most-recent-grant", "step": i,
                               "region": [si, ri], "name": n, "want": want, "got": got})
+                    continue
+                # the same clause after future consumptions: only one-shot grants are ever removed, so what lookups by name can
+                # ever yield is the run of TEMPORARY grants ahead of the most recent permanent grant, and that grant - in
+                # this order (the entries behind it, and hence multiplicities there, are not observable by name: the model
+                # comparison covers them)
+                want_obs = observable(l)
+                try:
+                    got_obs = observable([(TYL[t], u) for t, u in reg.caps.getall(n, [])])
+                    got_urls = list(reg.cap_urls.getall(n, []))[:len(got_obs)]
+                except Exception as e:
+                    got_obs, got_urls = "EXC:" + type(e).__name__, None
+                if got_obs != want_obs or got_urls != [u for _, u in want_obs]:
+                    v.append({"clause": "latest_by_name after consumptions (one-shot grants ahead of the most recent permanent grant, most recent first)",
+                              "class": "by-name-order-not-most-recent-first", "step": i,
+                              "region": [si, ri], "name": n, "want": want_obs, "got": got_obs, "got_urls": got_urls})
     return v
 
 
@@ -717,6 +769,369 @@ def random_ops(rng, n, prefix_related):
     return ops
 
 
+
+
+def samename_ops(rng):
+    """Random histories that pile 3..6 grants (NORMAL via update_caps / Seed responses, TEMPORARY via register_cap or an
+    upload-creating response) under ONE name of ONE region before one-shot URLs are consumed, then interleave consumptions
+    (newest first / oldest first / random order), further grants, repeated resolutions of consumed URLs and resolutions of
+    NORMAL URLs.  All URLs are fixed-width and pairwise prefix-free.  By-name lookups are read after every op by the checker."""
+    ops = [("CS", 1, [], 11, SEED00, 5)]
+    regions = [(0, 0)]
+    if rng.random() < 0.5:
+        ops.append(("CS", 2, [], 21, SEED10, 7))
+        regions.append((1, 0))
+    if rng.random() < 0.4:
+        ops.append(("RR", 0, 12, SEED01, None))
+        regions.append((0, 1))
+    counter = [0]
+
+    def fresh(si, kind):
+        counter[0] += 1
+        return "http://sim%d.test/cap/%s%03d" % (si + 1, kind, counter[0])
+
+    nflows = 0
+    scripts = []
+    targets = rng.sample([(r, n) for r in regions for n in ("UploadThing", "NewFileAgentInventoryUploader", "UploadBakedTextureUploader", "A")],
+                         rng.choice([1, 1, 2, 3]))
+    for (si, ri), name in targets:
+        base = name[:-len("Uploader")] if name.endswith("Uploader") and name[:-len("Uploader")] in UPLOAD_CREATING else None
+        flow = None
+        if base is not None and rng.random() < 0.8:
+            bu = fresh(si, "b")
+            ops.append(("UC", si, ri, [(base, sv(bu))]))
+            ops.append(("RQ", bu + rng.choice(["", "/", "?a=1"]), []))
+            flow = nflows
+            nflows += 1
+        live_t, live_n, dead_t = [], [], []
+        script = []
+
+        def grant(temp_bias):
+            if rng.random() < temp_bias:
+                u = fresh(si, "t")
+                if flow is not None and rng.random() < 0.7:
+                    script.append(("RE", flow, 200, [("state", sv("upload")), ("uploader", sv(u))]))
+                else:
+                    script.append(("RC", si, ri, name, u, "T"))
+                live_t.append(u)
+            else:
+                u = fresh(si, "n") if (not live_n or rng.random() < 0.85) else rng.choice(live_n)   # sometimes the same URL again
+                if rng.random() < 0.75:
+                    items = [(name, sv(u))]
+                    if rng.random() < 0.2:
+                        items.insert(rng.randrange(2), ("Z", sv(fresh(si, "z"))))
+                    script.append(("UC", si, ri, items))
+                else:
+                    script.append(("RC", si, ri, name, u, "N"))
+                live_n.append(u)
+
+        tb = rng.choice([0.3, 0.5, 0.8, 1.0])
+        for _ in range(rng.randint(3, 6)):
+            grant(tb)
+        if not live_t:
+            grant(1.0)
+        order = rng.choice(["newest", "oldest", "random", "random"])
+        for _ in range(rng.randint(2, 8)):
+            x = rng.random()
+            if x < 0.5 and live_t:
+                i = {"newest": len(live_t) - 1, "oldest": 0}.get(order, rng.randrange(len(live_t)))
+                u = live_t.pop(i)
+                dead_t.append(u)
+                if rng.random() < 0.7:
+                    script.append(("RS", u + rng.choice(["", "/", "/x", "?a=1"])))
+                else:       # the viewer hits the one-shot URL: consumption inside _handle_request
+                    script.append(("RQ", u + rng.choice(["", "/", "?a=1"]), []))
+            elif x < 0.72:
+                grant(tb)
+            elif x < 0.84 and live_n:
+                script.append(("RS", rng.choice(live_n) + rng.choice(["", "/x", "?a=1"])))
+            elif x < 0.94 and dead_t:
+                script.append(("RS", rng.choice(dead_t) + rng.choice(["", "/x"])))
+            else:
+                script.append(("RP", si, ri, rng.choice(["Prox", name])))
+        scripts.append(script)
+    # order-preserving random interleaving of the per-name scripts
+    while scripts:
+        sc = rng.choice(scripts)
+        ops.append(sc.pop(0))
+        if not sc:
+            scripts.remove(sc)
+    return ops
+
+
+def every_step_line(ops, worder, uuid_base=0):
+    return ("U%d " % uuid_base if uuid_base else "") + "E " + case_line(ops, worder)
+
+
+def run_sequences(ctx, res, seqs, known_classes=()):
+    """run op sequences on fresh worlds; compare result + complete state with the model after EVERY op; judge with the oracle"""
+    lines, expect, meta = [], [], []
+    cls, nt = {}, 0
+    stats = {"consumptions": 0, "consumptions_with_2plus_survivors": 0, "max_entries_of_a_name": {}}   # per sequence: peak number of live grants under one name
+    for ops, base in seqs:
+        w = World(uuid_base=base)
+        spec = Spec()
+        recs = []
+        peak = 0
+        for i, op in enumerate(ops):
+            o = w.apply(op)
+            recs.append(o + " || " + w.dump())
+            viols = spec_step(w, spec, op, o, i) + spec_by_name(w, spec, i)
+            for s_ in spec.sessions:
+                for r_ in s_["regions"]:
+                    for l_ in r_["hist"].values():
+                        if len(l_) > peak:
+                            peak = len(l_)
+            if op[0] in ("RS", "RQ") and (o.endswith(",T") or ",T:" in o):
+                stats["consumptions"] += 1
+                cd = (o[4:] if op[0] == "RS" else o[4:].split(":")[0]).split(",")
+                if cd[0] != "-" and cd[1] != "-":
+                    si, ri = map(int, cd[1].split("."))
+                    h = spec.hist(si, ri)
+                    if h is not None and len(h.get(bytes.fromhex(cd[0][1:]).decode(), [])) >= 2:
+                        stats["consumptions_with_2plus_survivors"] += 1
+            fresh = []
+            for v in viols:
+                key = (v.get("class"), v.get("clause"))
+                cls[key] = cls.get(key, 0) + 1
+                if cls[key] == 1 and key not in known_classes:
+                    fresh.append(v)
+            for v in fresh:
+                res.impl_violations.append(shrunk_case(ops, v))
+            if viols:
+                # the history and the implementation have diverged; stop judging this sequence
+                ops = ops[:i + 1]
+                break
+        stats["max_entries_of_a_name"][peak] = stats["max_entries_of_a_name"].get(peak, 0) + 1
+        lines.append(every_step_line(ops, w.worder, base))
+        expect.append("\t".join(recs))
+        meta.append(ops)
+        if any(x[0] in ("RS", "RQ", "RE") for x in ops):
+            nt += 1
+    model = ctx.run_driver(lines)
+    for ops, m, e in zip(meta, model, expect):
+        if m.strip() != e.strip():
+            er, mr = e.split("\t"), m.split("\t")
+            i = 0
+            while i < min(len(er), len(mr)) and er[i] == mr[i]:
+                i += 1
+            res.disagreements.append({"ops": [list(o) for o in ops[:i + 1]], "first_different_step": i,
+                                      "impl": er[i][:1500] if i < len(er) else None, "model": mr[i][:1500] if i < len(mr) else None})
+            if len(res.disagreements) > 20:
+                break
+    res.evaluations = sum(len(o) for o in meta)
+    res.distinct_nontrivial = nt
+    stats["max_entries_of_a_name"] = {str(a): b for a, b in sorted(stats["max_entries_of_a_name"].items())}
+    res.distribution = dict(stats, sequences=len(meta), violation_classes={str(a): b for a, b in cls.items()})
+    res.samples = [{"ops": [list(o) for o in meta[i]][:10], "result": expect[i][:300]} for i in (0, 1) if i < len(meta)]
+    return cls
+
+
+# --------------------------------------------------------------------------- one region, one name: consumption order
+
+FAM_NAME = "UploadThing"
+FAM_N = ["http://sim1.test/cap/grant-%d" % i for i in (1, 2, 3)]
+FAM_T = ["http://sim1.test/cap/shot-%d" % i for i in (1, 2)]
+FAM_SETUP = [("CS", 1, [], 11, SEED00, 5)]
+# mutating / resolving ops of the family; "lookup by name" is not a letter of its own: caps[name], cap_urls[name] and the
+# getall order are read after EVERY step (and the state is compared after the reads), which covers every sequence
+# that has lookups inserted anywhere
+FAM_ALPHA = ([("UC", 0, 0, [(FAM_NAME, sv(u))]) for u in FAM_N] +
+             [("RC", 0, 0, FAM_NAME, u, "T") for u in FAM_T] +
+             [("RS", FAM_T[0] + "?x=1"), ("RS", FAM_T[1] + "/y"), ("RS", FAM_N[0] + "/x")])
+# the same letters as seen by the history-level statement: grant (ty, url) / resolve (ty, url)
+FAM_SEM = ([("G", "N", u) for u in FAM_N] + [("G", "T", u) for u in FAM_T] +
+           [("R", "T", FAM_T[0]), ("R", "T", FAM_T[1]), ("R", "N", FAM_N[0])])
+
+
+def tree_size(k, d):
+    return sum(k ** j for j in range(1, d + 1))
+
+
+def tree_path(j, k, d):
+    """op indices of the j-th node (pre-order) of the complete k-ary tree of depth d"""
+    path = []
+    while True:
+        sub = 1 + tree_size(k, d - 1)
+        path.append(j // sub)
+        j %= sub
+        if j == 0:
+            return path
+        j -= 1
+        d -= 1
+
+
+def by_name_obs(reg, name):
+    """every by-name view of one name: caps[name], cap_urls[name], cap_urls.get, getall of both, items() order"""
+    try:
+        c = reg.caps[name]
+    except KeyError:
+        c = None
+    cu = reg.cap_urls
+    try:
+        u = cu[name]
+    except KeyError:
+        u = None
+    ga = reg.caps.getall(name, [])
+    gu = cu.getall(name, [])
+    items = [v for n, v in reg.caps.items() if n == name]
+    ok = (items == ga and gu == [x[1] for x in ga] and c == (ga[0] if ga else None)
+          and u == (ga[0][1] if ga else None) and cu.get(name) == u)
+    return u, ga, ok
+
+
+def family_suite(ctx):
+    depth = ctx.pick(6, 7)
+    k = len(FAM_ALPHA)
+    res = CorrResult(suite="caps: one region, one name - consumption order (impl vs extracted model)",
+                     rule="one session, one region, one cap name: EVERY sequence of 1..%d ops over %d letters {grant NORMAL url_1..3 "
+                          "(update_caps), register TEMPORARY shot_1/shot_2, resolve shot_1, resolve shot_2, resolve a NORMAL url "
+                          "(SessionManager.resolve_cap)}; after EVERY step the op's result, the complete caps.items() order, "
+                          "_caps_url_lookup and the by-name views (caps[name], cap_urls[name], cap_urls.get, caps.getall / "
+                          "cap_urls.getall order) are compared with the extracted model (step / cap_url / md_getall applied down the "
+                          "same tree by the driver) and the history-level statement is evaluated (by-name = most recent unconsumed "
+                          "grant, also for the one-shot grants ahead of the most recent permanent one; one-shot resolves once); lookups are read at every "
+                          "node, so sequences with 'lookup by name' inserted anywhere are subsumed; non-trivial = a one-shot cap was "
+                          "consumed on the path while >= 2 other grants of the name survived" % (depth, k))
+    logging.disable(logging.CRITICAL)
+    world = World()
+    outs0 = [world.apply(op) for op in FAM_SETUP]
+    reg = world.region(0, 0)
+    import multidict
+    md_extend = multidict.MultiDict.extend
+    toks = [" ".join(op_tokens(op, world.worder)) for op in FAM_ALPHA]
+    pre_tok = " | ".join(" ".join(op_tokens(op, world.worder)) for op in FAM_SETUP)
+    alpha_tok = " | ".join(toks)
+    empty = "cap:-,-,-,-,N"
+    stats = {"nodes": 0, "nontrivial": 0, "consumptions_with_2plus_survivors": 0, "entries_hist": {}}
+    seen_classes = {}
+    recs = []
+
+    def violation(path, v):
+        key = (v["class"], v["clause"])
+        seen_classes[key] = seen_classes.get(key, 0) + 1
+        if seen_classes[key] == 1:
+            ops = FAM_SETUP + [FAM_ALPHA[i] for i in path]
+            v = dict(v, step=len(ops) - 1)
+            # confirm with the general oracle and shrink; fall back to the family's own verdict
+            res.impl_violations.append(shrunk_case(ops, v))
+
+    def walk(path, exp, d, nt, judged, letters):
+        for idx in letters:
+            op, sem = FAM_ALPHA[idx], FAM_SEM[idx]
+            items, lk = list(reg.caps.items()), dict(reg._caps_url_lookup)
+            try:
+                o = world._apply(op)
+            except Exception as e:
+                o = "EXC:" + type(e).__name__
+            u, ga, ok = by_name_obs(reg, FAM_NAME)
+            rec = "%s || %s || BN %s G %s%s" % (o, world.dump(), opt(u, hx),
+                                               " ".join([TYL[t] + ":" + hx(x) for t, x in ga]),
+                                               "" if ok else " VIEWS-INCONSISTENT")
+            recs.append(rec)
+            stats["nodes"] += 1
+            p2, e2, nt2, j2 = path + (idx,), exp, nt, judged
+            if judged:
+                vs = []
+                ent = (sem[1], sem[2])
+                if sem[0] == "G":
+                    e2 = (ent,) + exp
+                    want_o = "none"
+                else:
+                    if ent in exp:
+                        want_o = "cap:%s,0.0,0,%s,%s" % (hx(FAM_NAME), hx(sem[2]), sem[1])
+                        if sem[1] == "T":
+                            i0 = exp.index(ent)
+                            e2 = exp[:i0] + exp[i0 + 1:]
+                            if len(e2) >= 2:
+                                nt2 = True
+                                stats["consumptions_with_2plus_survivors"] += 1
+                    else:
+                        want_o = empty
+                if o.startswith("EXC:"):
+                    vs.append({"clause": "no exception escapes the cap API", "class": "exception:" + o[4:]})
+                elif o != want_o:
+                    if want_o == empty or o == empty:
+                        vs.append({"clause": "temporary_once / resolve only granted URLs",
+                                   "class": "resolved-without-live-grant" if want_o == empty else "wrong-attribution",
+                                   "want": want_o, "got": o})
+                    else:
+                        vs.append({"clause": "resolve_sound", "class": "wrong-attribution", "want": want_o, "got": o})
+                want_u = e2[0][1] if e2 else None
+                got_all = [(TYL[t], x) for t, x in ga]
+                if u != want_u:
+                    vs.append({"clause": "latest_by_name", "class": "by-name-lookup-not-most-recent-grant",
+                               "name": FAM_NAME, "want": want_u, "got": u})
+                elif observable(got_all) != observable(e2) or not ok:
+                    vs.append({"clause": "latest_by_name after consumptions (one-shot grants ahead of the most recent permanent grant, most recent first)",
+                               "class": "by-name-order-not-most-recent-first", "name": FAM_NAME,
+                               "want": observable(e2), "got": observable(got_all), "views_consistent": ok})
+                for v in vs:
+                    violation(p2, v)
+                if vs:
+                    j2 = False      # history and implementation have diverged: keep walking (the model is still compared)
+            if nt2:
+                stats["nontrivial"] += 1
+            n_ent = len(ga)
+            stats["entries_hist"][n_ent] = stats["entries_hist"].get(n_ent, 0) + 1
+            if d > 1:
+                walk(p2, e2, d - 1, nt2, j2, all_letters)
+            reg.caps.clear()
+            md_extend(reg.caps, items)
+            reg._caps_url_lookup.clear()
+            reg._caps_url_lookup.update(lk)
+
+    def compare(first, recs, model_recs):
+        if len(model_recs) != len(recs):
+            res.disagreements.append({"ops": [list(o) for o in FAM_SETUP + [FAM_ALPHA[first]]], "impl_records": len(recs),
+                                      "model_records": len(model_recs), "model": "\t".join(model_recs)[:300]})
+            return
+        for j, (e, m) in enumerate(zip(recs, model_recs)):
+            if e != m:
+                if len(res.disagreements) > 20:
+                    break
+                path = [first] + (tree_path(j - 1, k, depth - 1) if j else [])
+                res.disagreements.append({"ops": [list(o) for o in FAM_SETUP + [FAM_ALPHA[i] for i in path]],
+                                          "impl": e[:1500], "model": m[:1500]})
+
+    def model_chunk(first):
+        line1 = "T 1 0 0 %s || %s || %s" % (hx(FAM_NAME), pre_tok, toks[first])
+        lineN = "T %d 0 0 %s || %s | %s || %s" % (depth - 1, hx(FAM_NAME), pre_tok, toks[first], alpha_tok)
+        m1, mN = ctx.run_driver([line1, lineN])
+        return m1.split("\t") + mN.split("\t")
+
+    all_letters = range(k)
+    samples = []
+    import concurrent.futures
+    try:
+        # one chunk per first letter: the node itself, then its subtree (pre-order); the model walks the same chunk in a
+        # driver process while the implementation is being walked here
+        with concurrent.futures.ThreadPoolExecutor(max_workers=2) as pool:
+            pending = {first: pool.submit(model_chunk, first) for first in range(min(2, k))}
+            for first in all_letters:
+                if first + 2 < k:
+                    pending[first + 2] = pool.submit(model_chunk, first + 2)     # at most three chunks of the model in memory
+                del recs[:]
+                walk((), (), depth, False, True, [first])
+                compare(first, recs, pending.pop(first).result())
+                j = len(recs) // 3
+                samples.append({"ops": [list(FAM_ALPHA[i]) for i in [first] + (tree_path(j - 1, k, depth - 1) if j else [])],
+                                "result": recs[j][:400]})
+    finally:
+        logging.disable(logging.NOTSET)
+    if outs0 != ["idx:0"]:
+        res.disagreements.append({"ops": [list(o) for o in FAM_SETUP], "impl": outs0, "model": ["idx:0"]})
+    res.evaluations = stats["nodes"]
+    res.distinct_nontrivial = stats["nontrivial"]
+    res.exhaustive = True
+    res.distribution = {"depth": depth, "alphabet": k, "sequences": tree_size(k, depth),
+                        "consumptions_with_2plus_survivors": stats["consumptions_with_2plus_survivors"],
+                        "nodes_by_number_of_entries_of_the_name": {str(a): b for a, b in sorted(stats["entries_hist"].items())},
+                        "violation_classes": {str(a): b for a, b in seen_classes.items()}}
+    res.samples = samples[:4]
+    return res
+
+
 # --------------------------------------------------------------------------- correspondence
 
 def load_corpus():
@@ -753,7 +1168,10 @@ def correspond(ctx):
 
 
 def _correspond(ctx):
+    import time
     results = []
+    t_start = time.time()
+    marks = []
     # ---- suite 1: corpus + exhaustive prefix-sharing sweep
     depth = ctx.pick(3, 4)
     alpha = alphabet(ctx)
@@ -785,7 +1203,7 @@ def _correspond(ctx):
             key = (v.get("class"), v.get("clause"))
             if key not in seen_classes:
                 seen_classes[key] = 1
-                res.impl_violations.append(viol_case(ops, v))
+                res.impl_violations.append(shrunk_case(ops, v))
     # setup
     spec = Spec()
     outs0 = []
@@ -797,7 +1215,7 @@ def _correspond(ctx):
         nonlocal nontriv
         for op in alpha:
             snap = world.snapshot()
-            sp = copy.deepcopy(spec)
+            sp = spec.clone()
             o = world.apply(op)
             i = len(SETUP) + len(path)
             viols = spec_step(world, sp, op, o, i) + spec_by_name(world, sp, i)
@@ -809,7 +1227,7 @@ def _correspond(ctx):
                 key = (v.get("class"), v.get("clause"))
                 seen_classes[key] = seen_classes.get(key, 0) + 1
                 if seen_classes[key] == 1:
-                    res.impl_violations.append(viol_case(SETUP + p2, v))
+                    res.impl_violations.append(shrunk_case(SETUP + p2, v))
             if d > 1 and all(x.get("class") == PREFIX_CLASS for x in viols):
                 dfs(p2, o2, sp, d - 1)
             world.restore(snap)
@@ -828,6 +1246,7 @@ def _correspond(ctx):
     res.distribution = {"depth": depth, "alphabet": len(alpha), "violation_classes": {str(k): n for k, n in seen_classes.items()}}
     res.samples = [{"ops": [list(o) for o in meta[i][len(SETUP):]], "result": expect[i][:300]} for i in (5, len(meta) // 2, len(meta) - 1) if i < len(meta)]
     results.append(res)
+    marks.append(("sweep", time.time() - t_start))
 
     # ---- suite 2: random long sequences from fresh objects
     res2 = CorrResult(suite="caps: random op sequences from fresh sessions (impl vs extracted model)",
@@ -836,58 +1255,63 @@ def _correspond(ctx):
                            "clashing addresses/seeds, seed flows on any granted URL, non-200 responses, upload responses; every prefix of "
                            "every sequence is compared (results + full state) and checked against the statement; non-trivial = contains "
                            "a lookup or flow after at least one grant")
-    lines, expect, meta = [], [], []
     nseq = ctx.pick(250, 4000)
-    cls2 = {}
-    nt2 = 0
-    for j in range(nseq):
-        ops = random_ops(ctx.rng, ctx.rng.randrange(5, 31), prefix_related=(j % 2 == 0))
-        base = ctx.rng.choice([0, 0, 4096])
-        w = World(uuid_base=base)
-        spec = Spec()
-        outs = []
-        for i, op in enumerate(ops):
-            o = w.apply(op)
-            outs.append(o)
-            viols = spec_step(w, spec, op, o, i) + spec_by_name(w, spec, i)
-            for v in viols:
-                key = (v.get("class"), v.get("clause"))
-                cls2[key] = cls2.get(key, 0) + 1
-                if cls2[key] == 1 and key not in seen_classes:
-                    res2.impl_violations.append(viol_case(ops, v))
-            if viols:
-                # the history and the implementation have diverged; stop judging this sequence
-                ops = ops[:i + 1]
-                break
-        lines.append(case_line(ops, w.worder, base))
-        expect.append(" | ".join(outs) + " || " + w.dump())
-        meta.append(ops)
-        if any(x[0] in ("RS", "RQ", "RE") for x in ops):
-            nt2 += 1
-    model = ctx.run_driver(lines)
-    for ops, m, e in zip(meta, model, expect):
-        if m.strip() != e.strip():
-            res2.disagreements.append(diff_case(ops, e, m))
-            if len(res2.disagreements) > 20:
-                break
-    res2.evaluations = sum(len(o) for o in meta)
-    res2.distinct_nontrivial = nt2
-    res2.distribution = {"sequences": nseq, "violation_classes": {str(k): n for k, n in cls2.items()}}
-    res2.samples = [{"ops": [list(o) for o in meta[i]][:8], "result": expect[i][:300]} for i in (0, 1) if i < len(meta)]
+    seqs = [(random_ops(ctx.rng, ctx.rng.randrange(5, 31), prefix_related=(j % 2 == 0)), ctx.rng.choice([0, 0, 4096]))
+            for j in range(nseq)]
+    cls2 = run_sequences(ctx, res2, seqs, known_classes=seen_classes)
     results.append(res2)
+    marks.append(("random", time.time() - t_start))
+
+    # ---- suite 3: random histories with many grants under one name before one-shot consumptions
+    res3 = CorrResult(suite="caps: random same-name histories with one-shot consumptions (impl vs extracted model)",
+                      rule="seeded random histories: 1..3 (region, name) targets over up to 3 regions in 2 sessions; per target 3..6 grants "
+                           "under the SAME name (NORMAL via update_caps/register_cap incl. repeated URLs, TEMPORARY via register_cap or "
+                           "upload-creating responses through _handle_response) before the first consumption, then 2..8 of: consume a "
+                           "live one-shot URL (newest/oldest/random first; SessionManager.resolve_cap or _handle_request), further grants, "
+                           "resolve a NORMAL URL, resolve an already consumed URL, register_proxy_cap; scripts of different targets are "
+                           "interleaved; after EVERY op the result and the complete state (caps.items() order, _caps_url_lookup of every "
+                           "region) are compared with the model and the statement is evaluated (by-name head of every name = most recent unconsumed "
+                           "grant, incl. the one-shot grants ahead of the most recent permanent one); non-trivial = contains a lookup or flow")
+    nseq3 = ctx.pick(400, 6000)
+    seqs3 = [(samename_ops(ctx.rng), ctx.rng.choice([0, 0, 4096])) for _ in range(nseq3)]
+    known = dict(seen_classes)
+    known.update(cls2)
+    run_sequences(ctx, res3, seqs3, known_classes=known)
+    results.append(res3)
+    marks.append(("same-name", time.time() - t_start))
+
+    # ---- suite 4: exhaustive one-region/one-name family
+    results.append(family_suite(ctx))
+    marks.append(("family", time.time() - t_start))
+    ctx.notes.append("correspondence wall time (cumulative s): " + ", ".join("%s %.1f" % m for m in marks))
     return results
 
 
 # --------------------------------------------------------------------------- search / replay
 
 def first_violation(ops):
+    prev = logging.root.manager.disable
     logging.disable(logging.CRITICAL)
     try:
         w = World()
         outs, viols = check_ops(w, ops)
     finally:
-        logging.disable(logging.NOTSET)
+        logging.disable(prev)
     return viols[0] if viols else None
+
+
+def shrunk_case(ops, v):
+    """the case recorded for a fresh violation: confirmed from fresh objects by the general oracle and shrunk when the
+    same class reproduces, the raw observation otherwise (the recorded prefix finding is kept as observed)"""
+    ops = list(ops[:v.get("step", len(ops) - 1) + 1])
+    if v.get("class") != PREFIX_CLASS:
+        try:
+            g = first_violation(ops)
+            if g and g.get("class") == v.get("class"):
+                return shrink(ops, g)
+        except Exception:
+            pass
+    return viol_case(ops, v)
 
 
 def shrink(ops, v):
@@ -922,8 +1346,16 @@ def search(ctx, hints):
         v = first_violation(ops)
         if v:
             return shrink(ops, v)
+    # the one-region/one-name family, shortest sequences first (depth 4: 4680 sequences, judged by the general oracle)
+    k = len(FAM_ALPHA)
+    for d in range(1, ctx.pick(4, 5) + 1):
+        for j in range(k ** d):
+            ops = FAM_SETUP + [FAM_ALPHA[(j // k ** i) % k] for i in range(d)]
+            v = first_violation(ops)
+            if v:
+                return shrink(ops, v)
     for j in range(ctx.pick(300, 3000)):
-        ops = random_ops(ctx.rng, ctx.rng.randrange(5, 31), prefix_related=(j % 2 == 0))
+        ops = samename_ops(ctx.rng) if j % 2 else random_ops(ctx.rng, ctx.rng.randrange(5, 31), prefix_related=(j % 4 == 0))
         v = first_violation(ops)
         if v:
             return shrink(ops, v)
